@@ -224,7 +224,16 @@ func ParseVpsSpsPpsFromEnhancedSeqHeader(payload []byte) (vps, sps, pps []byte, 
 	packetType := payload[0] & 0x0f
 
 	if packetType == 0 {
-		return parseVpsSpsPpsFromRecord(payload)
+		// 注意，和 ParseVpsSpsPpsFromSeqHeader 保持一致，返回的内存块为内部独立新申请。
+		// 调用方（比如 remux.Rtmp2RtspRemuxer ）会长期持有返回值，而`payload`所在的内存块在回调结束后会被上层复用
+		v, s, p, e := parseVpsSpsPpsFromRecord(payload)
+		if e != nil {
+			return nil, nil, nil, e
+		}
+		vps = append(vps, v...)
+		sps = append(sps, s...)
+		pps = append(pps, p...)
+		return
 	}
 
 	return nil, nil, nil, nazaerrors.Wrap(base.ErrHevc)
